@@ -100,20 +100,20 @@ func (w *c19LokiWorker) run(c *c19Case) (res c19CaseRes) {
 	}
 	lj, _ := json.Marshal(labels)
 	cfgJSON := fmt.Sprintf(`{"address":%q,"labels":%s,"message_field":"msg","timestamp_field":"ts",`+c19BatcherJSON+
-		`,"retry":0,"connection_timeout":"10s","keep_alive":{"max_idle_conn_duration":"100ms"}}`, w.srv.URL, lj)
+		`,"retry":1,"retention":"1ms","connection_timeout":"10s","keep_alive":{"max_idle_conn_duration":"100ms"}}`, w.srv.URL, lj)
 	config, err := pipeline.GetConfig(&pipeline.PluginStaticInfo{Type: outPluginType, Factory: Factory}, []byte(cfgJSON), c19Values)
 	if err != nil {
 		panic(err)
 	}
 	ctl := &c19Ctl{commits: make(chan uint64, 64)}
 	p := &Plugin{}
-	p.Start(config, c19Params(ctl, w.wi))
+	p.Start(config, c19Params(ctl, w.wi, c.DQ))
 	defer p.Stop()
 	seq := uint64(0)
 	for bi, b := range c.Batches {
 		x := c19MakeEvents(b, &seq)
 		defer x.release()
-		w.sink.arm(c.Pats[bi], x.orig)
+		w.sink.arm(c.Pats[bi], x.orig, c19Fail(c, bi))
 		acked := c19Feed(p.Out, x, ctl)
 		res.Batches = append(res.Batches, c19BatchRes{Reqs: w.sink.take(), Acked: acked})
 		if !acked {
@@ -148,7 +148,11 @@ type c19Case struct {
 	Split   bool      `json:"split"`
 	Batches [][]c19Ev `json:"batches"`
 	Pats    [][][]int `json:"pats"`
+	Fail    []bool    `json:"fail"` // per batch: the sink answers 5xx to every attempt (the batch is given up)
+	DQ      bool      `json:"dq"`   // a dead queue is configured
 }
+
+func c19Fail(c *c19Case, bi int) bool { return bi < len(c.Fail) && c.Fail[bi] }
 
 type c19Framing struct {
 	Where string `json:"where"`
@@ -160,6 +164,7 @@ type c19Framing struct {
 type c19Req struct {
 	IDs     []int        `json:"ids"`
 	OK      bool         `json:"ok"`
+	Status  int          `json:"st"`
 	Framing []c19Framing `json:"framing,omitempty"`
 	DocDiff []int        `json:"doc_diff,omitempty"`
 	Bytes   int          `json:"bytes"`
@@ -294,13 +299,14 @@ func c19Rejects(pat [][]int, ids []int) bool {
 type c19Capture struct {
 	mu   sync.Mutex
 	pat  [][]int
+	fail bool
 	orig map[int][]byte
 	reqs []c19Req
 }
 
-func (s *c19Capture) arm(pat [][]int, orig map[int][]byte) {
+func (s *c19Capture) arm(pat [][]int, orig map[int][]byte, fail bool) {
 	s.mu.Lock()
-	s.pat, s.orig, s.reqs = pat, orig, nil
+	s.pat, s.orig, s.fail, s.reqs = pat, orig, fail, nil
 	s.mu.Unlock()
 }
 
@@ -326,12 +332,19 @@ func (s *c19HTTPSink) ServeHTTP(w http.ResponseWriter, req *http.Request) {
 	if r.IDs == nil {
 		r.IDs = []int{}
 	}
-	r.OK = !c19Rejects(s.pat, r.IDs)
+	switch {
+	case s.fail:
+		r.Status = http.StatusInternalServerError
+	case c19Rejects(s.pat, r.IDs):
+		r.Status = http.StatusRequestEntityTooLarge
+	default:
+		r.Status, r.OK = http.StatusOK, true
+	}
 	s.reqs = append(s.reqs, r)
 	s.mu.Unlock()
 	if !r.OK {
-		w.WriteHeader(http.StatusRequestEntityTooLarge)
-		_, _ = w.Write([]byte(`{"error":"too large"}`))
+		w.WriteHeader(r.Status)
+		_, _ = w.Write([]byte(`{"error":"scripted"}`))
 		return
 	}
 	w.WriteHeader(s.okStatus)
@@ -347,7 +360,21 @@ type c19Ctl struct {
 func (c *c19Ctl) Commit(e *pipeline.Event) { c.commits <- e.SeqID }
 func (c *c19Ctl) Error(string)             {}
 
-func c19Params(ctl *c19Ctl, wi int) *pipeline.OutputPluginParams {
+// stand-in for a configured dead-queue output: receiving an event counts like its commit
+type c19DQ struct{ ctl *c19Ctl }
+
+func (d *c19DQ) Start(pipeline.AnyConfig, *pipeline.OutputPluginParams) {}
+func (d *c19DQ) Stop()                                                  {}
+func (d *c19DQ) Out(e *pipeline.Event)                                  { d.ctl.commits <- e.SeqID }
+
+func c19Params(ctl *c19Ctl, wi int, dq bool) *pipeline.OutputPluginParams {
+	router := pipeline.NewRouter()
+	if dq {
+		router.SetDeadQueueOutput(&pipeline.OutputPluginInfo{
+			PluginStaticInfo:  &pipeline.PluginStaticInfo{Type: "c19dq"},
+			PluginRuntimeInfo: &pipeline.PluginRuntimeInfo{Plugin: &c19DQ{ctl: ctl}},
+		})
+	}
 	return &pipeline.OutputPluginParams{
 		PluginDefaultParams: pipeline.PluginDefaultParams{
 			PipelineName:     "c19",
@@ -355,7 +382,7 @@ func c19Params(ctl *c19Ctl, wi int) *pipeline.OutputPluginParams {
 			MetricCtl:        metric.NewCtl(fmt.Sprintf("c19_%d", wi), prometheus.NewRegistry(), 0, 0),
 		},
 		Controller: ctl,
-		Router:     pipeline.NewRouter(),
+		Router:     router,
 		Logger:     zap.NewNop().Sugar(),
 	}
 }
